@@ -183,8 +183,13 @@ Section RunField.
   (* ---- polynomials over F (a prime field) ---- *)
   Fixpoint spairs (l : list Z) : list (nat * T) :=
     match l with d :: c :: t => (Z.to_nat d, fof F [c]) :: spairs t | _ => [] end.
-  Definition rd (l : list T) : list E := map repr l.
-  Definition rs (s : list (nat * T)) : list (Z * E) := map (fun t => (Z.of_nat (fst t), repr (snd t))) s.
+  Definition rd (l : list T) : list E := stored_dense repr l.
+  Definition rs (s : list (nat * T)) : list (Z * E) := stored_sparse repr s.
+  (* SparsePolynomial::from_coefficients_vec on raw terms with pairwise distinct degrees.  Zero-coefficient terms
+     denote nothing: they are dropped first (the Rust constructor only pops them at the end of the raw list --
+     DEFECT-1 in props/C19/NOTES.md; the generator puts them only there) *)
+  Definition sp_in (l : list Z) : res (list (nat * T)) :=
+    s_from_vec F (filter (fun t => negb (is0 F (snd t))) (spairs l)).
   Definition pres (r : res (list (list Z))) : list (list Z) :=
     match r with ROk v => ok v | RPanic => [[2]] | RFuel => [[7]] end.
   Definition zlen {A} (l : list A) : Z := Z.of_nat (length l).
@@ -204,7 +209,7 @@ Section RunField.
         let Q := trim (fis0 F) (fv (arg 3 a)) in
         let R := trim (fis0 F) (fv (arg 5 a)) in
         if (eL <? 100) && (eR <? 100) then
-          pres (SA <- s_from_vec F (spairs (arg 7 a)) ;; SB <- s_from_vec F (spairs (arg 8 a)) ;;
+          pres (SA <- sp_in (arg 7 a) ;; SB <- sp_in (arg 8 a) ;;
                 L <- dexpr F P Q R f SA SB n h g eL ;; R' <- dexpr F P Q R f SA SB n h g eR ;;
                 dL <- d_degree F L ;; dR <- d_degree F R' ;;
                 sL <- d_to_sparse F L ;; sR <- d_to_sparse F R' ;;
@@ -219,7 +224,7 @@ Section RunField.
                      [b2z (seq cl cr); b2z (seq cl cr)];
                      [b2z (deq el er); b2z (deq el er); b2z (deq el (rd eSL)); b2z (deq er (rd eSR))]])
         else if (100 <=? eL) && (100 <=? eR) then
-          pres (SA <- s_from_vec F (spairs (arg 7 a)) ;; SB <- s_from_vec F (spairs (arg 8 a)) ;;
+          pres (SA <- sp_in (arg 7 a) ;; SB <- sp_in (arg 8 a) ;;
                 L <- sexpr F P Q R f SA SB eL ;; R' <- sexpr F P Q R f SA SB eR ;;
                 dL <- s_degree F L ;; dR <- s_degree F R' ;;
                 cL <- s_to_dense F L ;; cR <- s_to_dense F R' ;;
